@@ -24,6 +24,12 @@ pub struct Tree {
     /// paths relative to `root`
     pub rel_dirs: Vec<String>,
     pub rel_files: Vec<String>,
+    /// symbolic links: (path relative to `root`, target text with `{root}` standing for the root)
+    pub rel_links: Vec<(String, String)>,
+    /// paths (relative to `root`) that go through a link: `<link>/<file below its target>`,
+    /// `<link>/../<entry of the target's physical parent>`, the link itself (file links, dangling
+    /// links, loops)
+    pub via_links: Vec<String>,
 }
 
 impl Tree {
@@ -31,7 +37,20 @@ impl Tree {
         let p = format!("{}/", top);
         self.rel_files
             .iter()
+            .chain(self.via_links.iter())
             .filter_map(|f| f.strip_prefix(&p).map(|s| s.to_string()))
+            .collect()
+    }
+    /// the real regular files only (no path through a link)
+    pub fn real_files_under(&self, top: &str) -> Vec<String> {
+        let p = format!("{}/", top);
+        self.rel_files.iter().filter_map(|f| f.strip_prefix(&p).map(|s| s.to_string())).collect()
+    }
+    /// the link table as the model wants it: (absolute path of the link, target text)
+    pub fn model_links(&self) -> Vec<(String, String)> {
+        self.rel_links
+            .iter()
+            .map(|(p, t)| (format!("{}/{}", self.root, p), t.replace("{root}", &self.root)))
             .collect()
     }
     pub fn dirs_under(&self, top: &str) -> Vec<String> {
@@ -66,7 +85,8 @@ impl Tree {
             .collect()
     }
     pub fn to_json(&self) -> Value {
-        json!({"idx": self.idx, "dirs": self.rel_dirs, "files": self.rel_files})
+        json!({"idx": self.idx, "dirs": self.rel_dirs, "files": self.rel_files,
+               "links": self.rel_links.iter().map(|(p, t)| json!([p, t])).collect::<Vec<_>>()})
     }
 }
 
@@ -96,7 +116,115 @@ pub fn materialise(base: &Path, idx: u64, rel_dirs: &[String], rel_files: &[Stri
         root,
         rel_dirs: rel_dirs.to_vec(),
         rel_files: rel_files.to_vec(),
+        rel_links: vec![],
+        via_links: vec![],
     }
+}
+
+/// create symbolic links in a materialised tree and record the paths that go through them
+pub fn add_links(t: &mut Tree, links: &[(String, String)]) {
+    for (p, target) in links {
+        let full = Path::new(&t.root).join(p);
+        if std::fs::symlink_metadata(&full).is_ok() {
+            continue; // the name is taken
+        }
+        if let Some(parent) = full.parent() {
+            if !parent.is_dir() {
+                continue;
+            }
+        }
+        let text = target.replace("{root}", &t.root);
+        if std::os::unix::fs::symlink(&text, &full).is_err() {
+            continue;
+        }
+        t.rel_links.push((p.clone(), target.clone()));
+    }
+    fn below(dir: &Path, rel: &str, depth: u32, out: &mut Vec<String>) {
+        if depth > 3 {
+            return;
+        }
+        if let Ok(rd) = std::fs::read_dir(dir) {
+            let mut names: Vec<String> = rd.flatten().map(|e| e.file_name().to_str().unwrap().to_string()).collect();
+            names.sort();
+            for n in names {
+                let p = dir.join(&n);
+                let r = format!("{}/{}", rel, n);
+                match std::fs::metadata(&p) {
+                    Ok(m) if m.is_dir() => below(&p, &r, depth + 1, out),
+                    _ => out.push(r),
+                }
+            }
+        }
+    }
+    let mut via = vec![];
+    for (p, _) in &t.rel_links {
+        let full = Path::new(&t.root).join(p);
+        match std::fs::metadata(&full) {
+            Ok(m) if m.is_dir() => {
+                below(&full, p, 0, &mut via);
+                // ".." after the link is the physical parent of the TARGET
+                if let Ok(rd) = std::fs::read_dir(full.join("..")) {
+                    let mut names: Vec<String> = rd.flatten().map(|e| e.file_name().to_str().unwrap().to_string()).collect();
+                    names.sort();
+                    for n in names.into_iter().take(3) {
+                        // only what stays inside the tree (the model knows nothing else)
+                        let inside = std::fs::canonicalize(full.join("..").join(&n))
+                            .map(|c| c.starts_with(&t.root) && c != Path::new(&t.root))
+                            .unwrap_or(false);
+                        if inside {
+                            via.push(format!("{}/../{}", p, n));
+                        }
+                    }
+                }
+            }
+            _ => via.push(p.clone()),
+        }
+    }
+    t.via_links = via;
+}
+
+/// a link set over the generated tree: directory and file links with relative and absolute
+/// targets, a chain, a dangling link, links out of and into the source dir, a loop, and the source
+/// dir itself reached through a link
+pub fn gen_links(rng: &mut Rng, t: &Tree) -> Vec<(String, String)> {
+    let src_dirs = t.dirs_under("src");
+    let src_files = t.real_files_under("src");
+    let other_dirs = t.dirs_under("other");
+    let other_files = t.real_files_under("other");
+    let mut l: Vec<(String, String)> = vec![];
+    let up = |p: &str| "../".repeat(p.matches('/').count());
+    if !src_dirs.is_empty() {
+        let d = rng.pick(&src_dirs).clone();
+        l.push(("src/inc".into(), d.clone())); // relative, inside the source dir
+        l.push(("src/inc2".into(), "inc".into())); // chain
+        if rng.chance(1, 2) {
+            let d2 = rng.pick(&src_dirs).clone();
+            l.push((format!("src/{}/back", d2), format!("{}{}", up(&format!("{}/x", d2)), d))); // relative with ".."
+        }
+        l.push(("other/in".into(), format!("../src/{}", d))); // from outside into the source dir
+        l.push(("cw/lnk".into(), format!("{{root}}/src/{}", d)));
+    }
+    if !src_files.is_empty() {
+        let f = rng.pick(&src_files).clone();
+        l.push(("src/compat.c".into(), f.clone())); // file link, relative
+        l.push(("src/abs.c".into(), format!("{{root}}/src/{}", f))); // file link, absolute
+        l.push(("other/peek.c".into(), format!("../src/{}", f)));
+    }
+    if !other_dirs.is_empty() {
+        l.push(("src/out".into(), format!("../other/{}", rng.pick(&other_dirs)))); // out of the source dir
+    } else {
+        l.push(("src/out".into(), "../other".into()));
+    }
+    if !other_files.is_empty() {
+        l.push(("src/outf.c".into(), format!("{{root}}/other/{}", rng.pick(&other_files))));
+    }
+    l.push(("src/dangling".into(), "nowhere/x.c".into()));
+    l.push(("src/loop".into(), "loop".into()));
+    l.push(("src/ping".into(), "pong".into()));
+    l.push(("src/pong".into(), "ping".into()));
+    l.push(("srclink".into(), "src".into())); // the source dir through a link
+    l.push(("cw/up".into(), "..".into()));
+    l
 }
 
 pub fn build_tree(rng: &mut Rng, base: &Path, idx: u64) -> Tree {
@@ -139,7 +267,13 @@ pub fn build_tree(rng: &mut Rng, base: &Path, idx: u64) -> Tree {
     dirs.insert(format!("src/{}", rng.pick(DIRS)));
     let rel_dirs: Vec<String> = dirs.into_iter().collect();
     let rel_files: Vec<String> = files.into_iter().collect();
-    materialise(base, idx, &rel_dirs, &rel_files)
+    let mut t = materialise(base, idx, &rel_dirs, &rel_files);
+    // every second tree has symbolic links
+    if idx % 2 == 1 {
+        let links = gen_links(rng, &t);
+        add_links(&mut t, &links);
+    }
+    t
 }
 
 // ---------------------------------------------------------------------------------------------
@@ -235,7 +369,15 @@ pub fn tree_from_json(base: &Path, v: &Value) -> Tree {
             .map(|s| s.as_str().unwrap().to_string())
             .collect()
     };
-    materialise(base, v["idx"].as_u64().unwrap_or(0), &strs(&v["dirs"]), &strs(&v["files"]))
+    let mut t = materialise(base, v["idx"].as_u64().unwrap_or(0), &strs(&v["dirs"]), &strs(&v["files"]));
+    if let Some(ls) = v["links"].as_array() {
+        let links: Vec<(String, String)> = ls
+            .iter()
+            .map(|l| (l[0].as_str().unwrap().to_string(), l[1].as_str().unwrap().to_string()))
+            .collect();
+        add_links(&mut t, &links);
+    }
+    t
 }
 
 /// the marker line of entry `i`: count 0, so that it changes neither `is_covered` nor the
@@ -432,6 +574,7 @@ pub fn gen_cfg(rng: &mut Rng, t: &Tree, full: bool) -> Cfg {
         0..=5 => Some(t.src.clone()),
         6 => Some("/nonexistent/srcdir".to_string()),
         7 if rng.chance(1, 10) => Some("rel/src".to_string()), // `assert!(p.is_absolute())`
+        8 if t.rel_links.iter().any(|(p, _)| p == "srclink") => Some(format!("{}/srclink", t.root)),
         _ => None,
     };
     let pd = match rng.below(12) {
@@ -643,8 +786,16 @@ pub fn request(op: &str, t: &Tree, cfg: &Cfg, entries: &[(String, CovResult)]) -
                 .join(",")
         ),
     };
+    let y = format!(
+        "Y{}",
+        t.model_links()
+            .iter()
+            .map(|(p, tg)| format!("l{}:{}", hex(p.as_bytes()), hex(tg.as_bytes())))
+            .collect::<Vec<_>>()
+            .join(",")
+    );
     let mut s = format!(
-        "{} {} {} {} {} {} E{} F{} W{} {} {} |",
+        "{} {} {} {} {} {} E{} F{} W{} {} {} {} |",
         op,
         opt_arg('S', &cfg.sd),
         opt_arg('P', &cfg.pd),
@@ -660,6 +811,7 @@ pub fn request(op: &str, t: &Tree, cfg: &Cfg, entries: &[(String, CovResult)]) -
         hex(t.cw.as_bytes()),
         list_arg('D', 'p', &t.model_dirs()),
         list_arg('X', 'p', &t.model_files()),
+        y,
     );
     for (k, c) in entries {
         s.push_str(&format!(" K{}={}", hex(k.as_bytes()), show_cov(c)));
@@ -774,6 +926,10 @@ fn multiset(r: &Recs) -> Vec<String> {
 /// finding: a path component that contains a backslash (a Windows-style mapping value on Unix)
 /// keeps it in the absolute path and loses it in the relative one
 pub const BACKSLASH_NAME: &str = "C11-backslash-name-abs-rel-differ";
+
+/// finding: `nx/../link` — canonicalisation fails on the spelled path, the lexical normal form is a
+/// symbolic link, and the file is reported under the link's name instead of its physical path
+pub const LINK_NOT_CANONICAL: &str = "C11-link-behind-missing-dir-not-canonical";
 
 pub fn c11_oracle(case: &Case) -> Option<(String, Option<&'static str>)> {
     let all = c11_oracle_all(case);
@@ -900,13 +1056,22 @@ fn c11_oracle_inner(case: &Case, fails: &mut Vec<(String, Option<&'static str>)>
     if let Some(sd) = &cfg.sd {
         if let Ok(csd) = std::fs::canonicalize(sd) {
             let csd = csd.to_str().unwrap().to_string();
+            // "lies under" is read physically (the canonical file below the canonical source dir);
+            // `main` always passes a canonical source dir — a source dir reached through a symbolic
+            // link is library-only and is reported differently (C11_symlink_source_dir_link_witness)
+            let sd_canonical = spec_normalize(sd).as_deref() == Some(csd.as_str());
             for (abs, rel, _) in &neutral {
                 let p = Path::new(abs);
                 if let Ok(c) = std::fs::canonicalize(p) {
                     let c = c.to_str().unwrap();
                     if let Some(tail) = c.strip_prefix(&format!("{}/", csd)) {
-                        if rel != tail {
-                            fails.push((format!("file {:?} lies under the source dir but is reported as {:?}", c, rel), None));
+                        if rel != tail && sd_canonical {
+                            // named matcher: the reported absolute path is not canonical — it goes
+                            // through a symbolic link, which happens when `canonicalize` failed on
+                            // the path as spelled (a missing directory before a "..") and the
+                            // lexically normalised path exists
+                            let finding = if c != abs { Some(LINK_NOT_CANONICAL) } else { None };
+                            fails.push((format!("file {:?} lies under the source dir but is reported as {:?}", c, rel), finding));
                         }
                     }
                 }
